@@ -221,19 +221,28 @@ func parseKeysLeasesAndSignature(ls2 *LeaseSet2, data []byte) ([]byte, error) {
 
 // parseDestinationAndHeader validates minimum size and parses the destination and header fields.
 // Returns remaining data after parsing or error if validation or parsing fails.
+// leaseSet2ParseMinSize is the size below which no byte string can be a LeaseSet2,
+// whatever its key and signature types: the smallest header (395 bytes, a
+// Destination with a NULL certificate) + empty options (2) + key count (1) + one
+// encryption key header with an empty key (4) + lease count (1) + the shortest
+// signature (40 bytes, DSA-SHA1) = 443 bytes. LEASESET2_MIN_SIZE (499) describes
+// the common Ed25519 / X25519 layout; complete structures of other types are
+// shorter than that and must not be refused by the parser.
+const leaseSet2ParseMinSize = LEASESET2_HEADER_MIN_SIZE + 2 + 1 + 4 + 1 + 40
+
 // validateLeaseSet2MinSize validates that data meets minimum LeaseSet2 size requirements.
 // Returns error if data is too short to contain a valid LeaseSet2.
 func validateLeaseSet2MinSize(dataLen int) error {
-	if dataLen < LEASESET2_MIN_SIZE {
+	if dataLen < leaseSet2ParseMinSize {
 		err := oops.
 			Code("lease_set2_too_short").
 			With("data_length", dataLen).
-			With("minimum_required", LEASESET2_MIN_SIZE).
-			Errorf("data too short for LeaseSet2: got %d bytes, need at least %d", dataLen, LEASESET2_MIN_SIZE)
+			With("minimum_required", leaseSet2ParseMinSize).
+			Errorf("data too short for LeaseSet2: got %d bytes, need at least %d", dataLen, leaseSet2ParseMinSize)
 		log.WithFields(logger.Fields{
 			"at":          "validateLeaseSet2MinSize",
 			"data_length": dataLen,
-			"min_size":    LEASESET2_MIN_SIZE,
+			"min_size":    leaseSet2ParseMinSize,
 		}).Error(err.Error())
 		return err
 	}
